@@ -77,6 +77,7 @@ type Frame struct {
 	visits    map[*ssa.BasicBlock]int
 	pos       token.Pos
 	havoced   map[*ssa.Phi]bool
+	mergePhi  *mergeInfo
 }
 
 // targetPanic is a Go-level panic of the program under test.
@@ -480,6 +481,24 @@ func (ex *Exec) runBlock(fr *Frame) {
 		}
 		switch x := in.(type) {
 		case *ssa.Phi:
+			if mp := fr.mergePhi; mp != nil && mp.join == b {
+				var vt, vf Value
+				for i, pred := range b.Preds {
+					if pred == mp.predT {
+						vt = ex.get(fr, x.Edges[i])
+					}
+					if pred == mp.predF {
+						vf = ex.get(fr, x.Edges[i])
+					}
+				}
+				tt, ok1 := vt.(*Term)
+				tf, ok2 := vf.(*Term)
+				if !ok1 || !ok2 {
+					panic("if-conversion: non-scalar phi")
+				}
+				ex.set(fr, x, ex.tc.Ite(mp.cond, tt, tf))
+				break
+			}
 			for i, pred := range b.Preds {
 				if pred == fr.prev {
 					ex.set(fr, x, ex.get(fr, x.Edges[i]))
@@ -494,6 +513,10 @@ func (ex *Exec) runBlock(fr *Frame) {
 			var taken bool
 			if c.IsConst() {
 				taken = c.val != 0
+			} else if join := ex.tryIfConvert(fr, b, c); join != nil {
+				// both arms were evaluated and merged with ite at the join's phis
+				fr.block = join
+				return
 			} else {
 				taken = ex.fork(c)
 			}
